@@ -27,6 +27,8 @@ class ShapeEval:
             return t[1]
         if k == 'ref' and t[1] == 'numpy.newaxis':
             return None
+        if k in ('tuple', 'list') and all(is_c(x) and isinstance(x[1], int) for x in t[1]):
+            return ('ptup', tuple(x[1] for x in t[1]))        # a literal Python tuple / list of ints
         if k == 'attr':
             b = self.ev(t[1])
             if isinstance(b, tuple) and b and b[0] == 'arr':
@@ -39,6 +41,10 @@ class ShapeEval:
                     for d in b[1]:
                         n *= d
                     return n
+                if t[2] == 'T':
+                    return ('arr', tuple(reversed(b[1])))
+                if t[2] == 'dtype':
+                    return ('dtype', b)
             raise Undecided('attribute .%s' % t[2])
         if k == 'sub':
             b = self.ev(t[1])
@@ -75,11 +81,43 @@ class ShapeEval:
                     return any(v[1])
                 if isinstance(v, bool):
                     return v
+            if name in ('numpy.atleast_2d', 'numpy.atleast_1d', 'numpy.atleast_3d') and len(t[2]) == 1:
+                v = self.ev(t[2][0])
+                if isinstance(v, tuple) and v and v[0] == 'arr':
+                    n = int(name[-2])
+                    sh = tuple(v[1])
+                    if n == 1:
+                        return ('arr', sh or (1,))
+                    if n == 2:
+                        return ('arr', (1, 1) if len(sh) == 0 else ((1,) + sh if len(sh) == 1 else sh))
+                    return ('arr', (1, 1, 1) if len(sh) == 0 else ((1,) + sh + (1,) if len(sh) == 1 else
+                                                                    (sh + (1,) if len(sh) == 2 else sh)))
+            if name in ('numpy.reshape',) and len(t[2]) == 2:
+                return self._reshape(self.ev(t[2][0]), [t[2][1]])
+            if name in ('numpy.expand_dims',) and len(t[2]) == 2:
+                v = self.ev(t[2][0])
+                ax = self.ev(t[2][1])
+                if isinstance(v, tuple) and v[0] == 'arr' and isinstance(ax, int):
+                    sh = list(v[1])
+                    sh.insert(ax if ax >= 0 else len(sh) + 1 + ax, 1)
+                    return ('arr', tuple(sh))
+            if name in ('numpy.transpose',) and len(t[2]) == 1:
+                v = self.ev(t[2][0])
+                if isinstance(v, tuple) and v[0] == 'arr':
+                    return ('arr', tuple(reversed(v[1])))
+            if name in ('numpy.ndim',) and len(t[2]) == 1:
+                v = self.ev(t[2][0])
+                if isinstance(v, tuple) and v[0] == 'arr':
+                    return len(v[1])
+            if name in ('numpy.shape',) and len(t[2]) == 1:
+                v = self.ev(t[2][0])
+                if isinstance(v, tuple) and v[0] == 'arr':
+                    return ('tup', tuple(v[1]))
             if name == 'numpy.squeeze' and t[2]:
                 v = self.ev(t[2][0])
                 if v[0] == 'arr':
                     return ('arr', tuple(d for d in v[1] if d != 1))
-            if name in ('numpy.array', 'numpy.asarray', 'numpy.asanyarray') and t[2]:
+            if name in ('numpy.array', 'numpy.asarray', 'numpy.asanyarray', 'numpy.ascontiguousarray') and t[2]:
                 v = self.ev(t[2][0])
                 if isinstance(v, tuple) and v[0] in ('arr', 'tup'):
                     return v
@@ -103,8 +141,12 @@ class ShapeEval:
             b = self.ev(t[2])
             if t[1] in ('squeeze',) and b[0] == 'arr':
                 return ('arr', tuple(d for d in b[1] if d != 1))
-            if t[1] in ('copy', 'astype') and b[0] == 'arr':
+            if t[1] in ('copy', 'astype', 'view') and b[0] == 'arr':
                 return b
+            if t[1] == 'reshape' and b[0] == 'arr':
+                return self._reshape(b, list(t[3]))
+            if t[1] == 'transpose' and b[0] == 'arr' and not t[3]:
+                return ('arr', tuple(reversed(b[1])))
             if t[1] in ('flatten', 'ravel') and b[0] == 'arr':
                 n = 1
                 for d in b[1]:
@@ -120,6 +162,12 @@ class ShapeEval:
                 return r if op == 'in' else not r
             OPS = {'<': operator.lt, '<=': operator.le, '>': operator.gt, '>=': operator.ge, '==': operator.eq,
                    '!=': operator.ne}
+            # two Python tuples (a shape, a slice of it, a literal): `==` is one boolean, not elementwise
+            pa = isinstance(a, tuple) and a and a[0] in ('tup', 'ptup')
+            pb = isinstance(b, tuple) and b and b[0] in ('tup', 'ptup')
+            if pa and pb and 'ptup' in (a[0], b[0]) and op in ('==', '!='):
+                r = tuple(a[1]) == tuple(b[1])
+                return r if op == '==' else not r
             if isinstance(a, tuple) and a and a[0] == 'tup' and isinstance(b, tuple) and b and b[0] == 'tup':
                 if len(a[1]) != len(b[1]):
                     raise Undecided('shape comparison of different lengths')
@@ -149,6 +197,31 @@ class ShapeEval:
             if isinstance(a, int) and isinstance(b, int):
                 return {'+': a + b, '-': a - b, '*': a * b}.get(t[1])
         raise Undecided('term %s' % show(t)[:50])
+
+    def _reshape(self, b, dims):
+        if not (isinstance(b, tuple) and b and b[0] == 'arr'):
+            raise Undecided('reshape of %r' % (b,))
+        if len(dims) == 1 and dims[0][0] in ('tuple', 'list'):
+            dims = list(dims[0][1])
+        vals = [self.ev(d) for d in dims]
+        if not all(isinstance(v, int) for v in vals):
+            raise Undecided('reshape to %r' % (vals,))
+        n = 1
+        for d in b[1]:
+            n *= d
+        known = 1
+        for v in vals:
+            if v != -1:
+                known *= v
+        if vals.count(-1) > 1 or known == 0 or n % known:
+            raise Raises('ValueError: cannot reshape array of size %d into %r' % (n, vals))
+        out = tuple(n // known if v == -1 else v for v in vals)
+        m = 1
+        for d in out:
+            m *= d
+        if m != n:
+            raise Raises('ValueError: cannot reshape array of size %d into %r' % (n, vals))
+        return ('arr', out)
 
     def truth(self, v):
         if isinstance(v, tuple) and v and v[0] == 'tup':
